@@ -26,6 +26,28 @@ ENTRY = ('method', 'module', 'autoref-method', 'autoref-module', '_copy',
          'copy_bdds_from')
 
 
+# `roots` of copy_bdds_from is documented as an iterable: every form below
+# is a legitimate argument
+ROOT_FORMS = ('list', 'tuple', 'generator', 'iterator', 'dict_values',
+              'map')
+
+
+def as_form(form, fs):
+    if form == 'list':
+        return list(fs)
+    if form == 'tuple':
+        return tuple(fs)
+    if form == 'generator':
+        return (f for f in fs)
+    if form == 'iterator':
+        return iter(fs)
+    if form == 'dict_values':
+        return {i: f for i, f in enumerate(fs)}.values()
+    if form == 'map':
+        return map(lambda f: f, fs)
+    raise ValueError(form)
+
+
 def plan(tier, seed):
     specs = []
     n3 = ('a', 'b', 'c')
@@ -187,8 +209,13 @@ def all3(ctx, spec):
         # copy_bdds_from: all roots with one memo
         import dd._copy as _c
         fs = [_a.Function(u, src_ab) for u in A.R.values()]
-        gs = _c.copy_bdds_from(fs, tgt.ab)
+        form = ROOT_FORMS[k % len(ROOT_FORMS)]
+        gs = _c.copy_bdds_from(as_form(form, fs), tgt.ab)
         ctx.counters['entry_copy_bdds_from'] += 1
+        ctx.counters[f'roots_as_{form}'] += 1
+        if len(gs) != len(fs):
+            raise Violation('copy_bdds_from', 'number-of-copies-differs',
+                            dict(form=form, given=len(fs), got=len(gs)))
         for (t, u), g in zip(A.R.items(), gs):
             judge(ctx, 'copy_bdds_from', A.sp, t, src, before, tgt,
                   g.node, lambda x: x, dict(t=A.sp.fmt(t), src=so, tgt=to),
@@ -268,7 +295,13 @@ def sampled(ctx, spec):
                     tables=[sp_n.fmt(t) for t in tabs])
         if entry == 'copy_bdds_from':
             fs = [_a.Function(u, src_ab) for u in roots]
-            gs = _c.copy_bdds_from(fs, tgt.ab)
+            form = rng.choice(ROOT_FORMS)
+            info['roots_as'] = form
+            gs = _c.copy_bdds_from(as_form(form, fs), tgt.ab)
+            ctx.counters[f'roots_as_{form}'] += 1
+            if len(gs) != len(fs):
+                raise Violation('copy_bdds_from', 'number-of-copies-differs',
+                                dict(info, given=len(fs), got=len(gs)))
             rs = [g.node for g in gs]
             for r in rs:
                 tgt.bdd.incref(r)
